@@ -248,6 +248,11 @@ func interopLegA(r *core.Run, proto *spec.Proto, n int, opt spec.GenOpt) {
 		}
 		// --- the model peer parses the same octets (C02, encode side)
 		checkLayout(r, s)
+		// the receiver owns the decoded value: it flags it (one more optional parameter), grows and overwrites
+		// its octets; the PDUs still to come must round-trip all the same
+		ownerAdds(fresh)
+		fillSpare(fresh)
+		scribbleBytes(fresh)
 	}
 }
 
@@ -454,6 +459,11 @@ func interopLegB(r *core.Run, proto *spec.Proto, n int, opt spec.GenOpt) {
 		}
 		if c.Prob(1, 3) {
 			headerViaReader(r, proto, s.b)
+		}
+		if c.Bool() {
+			ownerAdds(fresh)
+			fillSpare(fresh)
+			scribbleBytes(fresh)
 		}
 	}
 }
